@@ -56,6 +56,7 @@ type VPod struct {
 	Term       bool   `json:"term"`
 	Stuck      bool   `json:"stuck"`
 	Unsched    bool   `json:"unsched"` // pinned by affinity, not bound yet
+	ReadyUnknown bool `json:"readyUnknown"` // Ready condition with status Unknown (node stopped reporting)
 	Restarts   int    `json:"restarts"`
 	RestartAge int    `json:"restartAge"`
 	Waiting    string `json:"waiting"`
@@ -252,6 +253,9 @@ func (c *Cluster) placePod(i int, p VPod, rsName map[string]string) error {
 	rs := corev1.ConditionFalse
 	if p.Ready {
 		rs = corev1.ConditionTrue
+	}
+	if p.ReadyUnknown {
+		rs = corev1.ConditionUnknown
 	}
 	pod.Status.Conditions = []corev1.PodCondition{{Type: corev1.PodReady, Status: rs, LastTransitionTime: ago(p.Age)}}
 	if p.StartAge >= 0 {
